@@ -82,13 +82,24 @@ def check_zone(a):
         else:
             cur = None
             wsegs = {}
-            for line in out.splitlines():
-                f = line.split()
-                if f[0] == "V":
-                    cur = (int(f[2]), int(f[3]))
-                    wsegs[cur] = []
-                elif f[0] == "C":
-                    wsegs[cur].append((int(f[1]), int(f[2]), int(f[3]), f[4] if f[4] != '""' else ""))
+            for line in out.split("\n"):
+                f = line.split(None, 4)
+                if not f:
+                    continue
+                try:
+                    if f[0] == "V":
+                        cur = (int(f[2]), int(f[3]))
+                        wsegs[cur] = []
+                    elif f[0] == "C":
+                        ab = f[4] if len(f) > 4 else ""
+                        wsegs[cur].append((int(f[1]), int(f[2]), int(f[3]), ab if ab != '""' else ""))
+                    else:
+                        raise ValueError(line)
+                except (ValueError, IndexError, KeyError):
+                    # only a broken library prints an abbreviation that breaks the line format (control bytes, newlines)
+                    res["diffs"].append({"kind": "window", "t": None, "when": "?", "library_line": line[:200],
+                                         "note": "the driver's output line cannot be parsed (abbreviation with control characters?)"})
+                    break
             for (lo, hi), segs in wsegs.items():
                 res["window_points"] += hi - lo + 1
                 got = sweeplib.lib_to_oracle_form(segs)
@@ -128,11 +139,17 @@ def check_zone(a):
             for line in out.splitlines():
                 if not line.startswith("P "):
                     continue
-                left, right = line[2:].split("|")
-                lf = left.split()
-                t = int(lf[0])
-                got_state = (int(lf[1]), int(lf[2]), lf[3] if lf[3] != '""' else "")
-                rf = [int(x) for x in right.split()]
+                try:
+                    left, right = line[2:].rsplit("|", 1)
+                    lf = left.split(None, 3)
+                    t = int(lf[0])
+                    got_state = (int(lf[1]), int(lf[2]), lf[3].rstrip(" ") if lf[3].rstrip(" ") != '""' else "")
+                    rf = [int(x) for x in right.split()]
+                except (ValueError, IndexError):
+                    # only a broken library prints an abbreviation that cannot be parsed back (control bytes, blanks, '|')
+                    res["diffs"].append({"kind": "fields", "t": None, "when": "?", "library_line": line[:200],
+                                         "oracle": None, "want_fields": "a line 'P t offset delta abbrev | fields'"})
+                    break
                 utoff, isdst, abbr = ora.at(t)
                 want = EPOCH_DT + dtm.timedelta(seconds=t + utoff)
                 res["probes"] += 1
